@@ -219,6 +219,39 @@ def run_scenario(cfg, ks_budget, rng):
     return dict(writes=writes, ops=ops, table=table, W=W, outcome=outcome, per_k=per_k)
 
 
+def inv_weak(s):
+    """the lifecycle invariant Inv of LInv.v (the form that C08_any_crash_point proves of every rebuilt state) on a snapshot"""
+    n = len(s["st"]); on_ids = [i for _, i in s["ongoing"]]
+    if len(set(s["eo"])) != len(s["eo"]):
+        return "end_order lists a trial twice: %r" % (s["eo"],)
+    if len(set(s["rq"])) != len(s["rq"]):
+        return "the retry queue lists a trial twice: %r" % (s["rq"],)
+    if s["so"] != list(range(n)):
+        return "start_order is %r for %d trials" % (s["so"], n)
+    for i in range(n):
+        final = s["st"][i] in ("COMPLETED", "FAILED")
+        if (i in on_ids) + (i in s["rq"]) + (i in s["eo"]) > 1:
+            return "trial %d is in more than one of ongoing / retry queue / end_order" % i
+        if i in s["eo"] and not final:
+            return "trial %d is in end_order with status %s" % (i, s["st"][i])
+        if final and (i in on_ids or i in s["rq"]):
+            return "trial %d has status %s but is %s" % (i, s["st"][i], "ongoing" if i in on_ids else "queued for retry")
+        if not final and i not in on_ids and i not in s["rq"]:
+            return "trial %d has status %s and is neither ongoing nor queued: it will never be run again" % (i, s["st"][i])
+        if s["st"][i] == "COMPLETED" and (s["score"][i] is None or s["score"][i] != s["score"][i]):
+            return "COMPLETED trial %d has score %r" % (i, s["score"][i])
+    return None
+
+
+def has_streak(s, kmax):
+    run = 0
+    for i in s["eo"]:
+        run = run + 1 if s["st"][i] == "FAILED" else 0
+        if run >= kmax:
+            return True
+    return False
+
+
 def spec(cfg, sc):
     N = cfg["max_trials"]
     for r in sc["per_k"]:
@@ -228,6 +261,18 @@ def spec(cfg, sc):
         if r["out2"] is None or r["out2"].startswith("error") or r["out2"] == "populate-error":
             return k, "resume-raises", "the resumed search raised (%s)" % r["out2"]
         fin = r["final"]
+        if r["rec_snap"] is not None:
+            m = inv_weak(r["rec_snap"])
+            if m:
+                return k, "rebuilt-inconsistent", "the state rebuilt by the restart is inconsistent: %s" % m
+            if r["rec_snap"]["ongoing"]:
+                return k, "rebuilt-ongoing", "the restart keeps trials handed out to tuners that no longer exist: %r" % (r["rec_snap"]["ongoing"],)
+        m = inv_weak(fin)
+        if m:
+            return k, "resumed-inconsistent", "after the resumed search: %s" % m
+        if r["out2"] == "Aborted" and not has_streak(fin, cfg["max_consec"]):
+            return k, "abort-unjustified", "the resumed search raised 'consecutive failures exceeded the limit of %d' but the ended trials %r have statuses %r" % (
+                cfg["max_consec"], fin["eo"], [fin["st"][i] for i in fin["eo"] if i < len(fin["st"])])
         for i, (st, sc_) in r["finals"].items():
             if i >= len(fin["st"]) and r["tuner_file"]:
                 return k, "durable-end-lost", "trial %d was durably %s before the crash and is missing after the resumed search" % (i, st)
